@@ -260,7 +260,7 @@ var keyPool = [][]byte{
 	[]byte("bb"), {0x61, 0x00}, {0x00}, {0xff}, {0x61, 0x62, 0x00}, []byte("c"), []byte("ca"),
 	[]byte("abcd"), {0x61, 0x62, 0xff, 0x01},
 }
-var valPool = [][]byte{{}, []byte("x"), []byte("y"), []byte("zz"), bytes.Repeat([]byte("L"), 70)}
+var valPool = [][]byte{{}, []byte("x"), []byte("y"), []byte("zz"), bytes.Repeat([]byte("L"), 40)}
 
 func otherVal(r *prng.R, v []byte) []byte {
 	for {
@@ -348,10 +348,15 @@ func corruptions(r *prng.R, served []entry, old, new []kv, srcVer, dstVer uint64
 		c = append(c[:pos], append([]entry{e}, c[pos:]...)...)
 		mk(kind, c)
 	}
-	// correct log, wrong announced root: the start root's hash at the new version
-	if !srcHash.Equal(&dstHash) {
-		out = append(out, attempt{kind: "wrong-expected", wl: clone(), dstVer: dstVer, dstHash: srcHash, dstKV: old})
-		sum("wrong-expected")
+	// correct log, wrong announced root: the start root's hash at the new version, or the
+	// root of the end contents plus one more binding
+	if !srcHash.Equal(&dstHash) && !srcHash.IsEmpty() && r.Chance(50) {
+		out = append(out, attempt{kind: "wrong-expected-start", wl: clone(), dstVer: dstVer, dstHash: srcHash, dstKV: old})
+		sum("wrong-expected-start")
+	} else {
+		other := applyRef(new, []entry{{k: []byte("zzzz"), v: []byte("q")}})
+		out = append(out, attempt{kind: "wrong-expected-other", wl: clone(), dstVer: dstVer, dstHash: hashOf(other), dstKV: other})
+		sum("wrong-expected-other")
 	}
 	// announced root that does not follow the start root
 	if r.Chance(50) {
@@ -389,6 +394,23 @@ func corruptions(r *prng.R, served []entry, old, new []kv, srcVer, dstVer uint64
 	return append(bad, good...)
 }
 
+// hashOf computes the root hash of given contents with an in-memory tree (nothing persisted).
+func hashOf(m []kv) hash.Hash {
+	ctx := context.Background()
+	t := mkvs.New(nil, nil, node.RootTypeState)
+	defer t.Close()
+	for _, e := range m {
+		if err := t.Insert(ctx, e.k, e.v); err != nil {
+			panic(err)
+		}
+	}
+	_, h, err := t.Commit(ctx, testNs, 0, mkvs.NoPersist())
+	if err != nil {
+		panic(err)
+	}
+	return h
+}
+
 type pairResult struct {
 	coq     string
 	desc    map[string]any
@@ -396,7 +418,14 @@ type pairResult struct {
 	key     string
 }
 
+type finding struct {
+	key, what string
+}
+
+const keyEmbeddedLeaf = "C13:pathbadger-unservable-log-after-same-value-insert-of-embedded-leaf"
+
 type runResult struct {
+	findings   []finding
 	pairs      []pairResult
 	violations []string // S
 	hist       map[string]int
@@ -462,6 +491,7 @@ func runScenario(sc Scenario) (res runResult) {
 		type done struct {
 			start, end storedRoot
 			ops        []Op
+			committed  []entry // what Tree.Commit returned, sorted by key
 		}
 		var pairs []done
 		for _, ops := range ver.Batches {
@@ -480,13 +510,17 @@ func runScenario(sc Scenario) (res runResult) {
 					panic(fmt.Errorf("tree op: %w", err))
 				}
 			}
-			_, h, err := t.Commit(ctx, testNs, version)
+			cwl, h, err := t.Commit(ctx, testNs, version)
 			t.Close()
 			if err != nil {
 				panic(fmt.Errorf("commit: %w", err))
 			}
 			end := storedRoot{ver: version, hash: h}
-			pairs = append(pairs, done{start: start, end: end, ops: ops})
+			var committed []entry
+			for _, e := range cwl {
+				committed = append(committed, entry{k: e.Key, v: e.Value, del: e.Value == nil})
+			}
+			pairs = append(pairs, done{start: start, end: end, ops: ops, committed: sortLog(committed)})
 			start = end
 			last = end
 		}
@@ -532,18 +566,41 @@ func runScenario(sc Scenario) (res runResult) {
 			if err == nil {
 				served, err = foldLog(it)
 			}
-			changed := !kvEqual(oldKV, newKV)
 			switch {
 			case err == nil:
 				res.hist["served:ok"]++
-			case errors.Is(err, nodedb.ErrWriteLogNotFound) && !changed:
-				// an empty batch stores no log at all (commit.go:99-114 leaves it nil; both
-				// backends skip nil logs); nothing is served, nothing to apply
-				res.hist["served:notfound-nochange"]++
+			case errors.Is(err, nodedb.ErrWriteLogNotFound) && len(p.committed) == 0:
+				// a batch with an empty log stores no log at all (commit.go:99-114 leaves it nil;
+				// both backends skip nil logs); nothing is served, nothing to apply
+				res.hist["served:notfound-empty-log"]++
 				served = nil
 			default:
-				viol("pair %d: no write log served for a stored pair of consecutive roots whose contents differ: %v", pairIdx, err)
+				what := fmt.Sprintf("pair %d: the database cannot serve the write log of a stored pair of consecutive roots (log of %d entries at commit): %v", pairIdx, len(p.committed), err)
 				res.hist["served:error"]++
+				// recognised defect: pathbadger, an entry re-inserting the unchanged value of a key
+				sameValue := false
+				for _, e := range p.committed {
+					if !e.del {
+						for _, o := range oldKV {
+							if bytes.Equal(o.k, e.k) && bytes.Equal(o.v, e.v) {
+								sameValue = true
+							}
+						}
+					}
+				}
+				if sc.Backend == "pathbadger" && sameValue && strings.Contains(err.Error(), "mkvs/pathbadger: failed to fetch node") {
+					res.findings = append(res.findings, finding{keyEmbeddedLeaf, what})
+				} else {
+					viol("%s", what)
+				}
+				// keep the second database following with the log Commit returned
+				if aerr := b2.impl.Apply(ctx, &api.ApplyRequest{Namespace: testNs, RootType: rootType,
+					SrcRound: startRoot.Version, SrcRoot: startRoot.Hash, DstRound: endRoot.Version, DstRoot: endRoot.Hash,
+					WriteLog: toAPILog(p.committed)}); aerr != nil {
+					viol("pair %d: the log returned by Commit is rejected by Apply: %v", pairIdx, aerr)
+					return res
+				}
+				db2roots = append(db2roots, storedRoot{ver: endRoot.Version, kvs: newKV, hash: endRoot.Hash})
 				continue
 			}
 			served = sortLog(served)
@@ -553,6 +610,9 @@ func runScenario(sc Scenario) (res runResult) {
 					viol("pair %d: served write log has key %x twice", pairIdx, e.k)
 				}
 				seenKey[string(e.k)] = true
+			}
+			if !logEqual(served, p.committed) {
+				viol("pair %d: the served write log differs from the one Commit returned", pairIdx)
 			}
 			if got := applyRef(oldKV, served); !kvEqual(got, newKV) {
 				viol("pair %d: served write log applied to the start contents does not give the end contents", pairIdx)
@@ -785,13 +845,17 @@ func hasKind(res runResult, kind string) bool {
 // same kind remains (bounded number of re-runs; every run opens fresh
 // databases).
 func shrink(sc Scenario, kind string) Scenario {
-	budget := 80
+	return shrinkWith(sc, func(c Scenario) bool { return hasKind(runScenario(c), kind) })
+}
+
+func shrinkWith(sc Scenario, pred func(Scenario) bool) Scenario {
+	budget := 60
 	try := func(c Scenario) bool {
 		if budget <= 0 {
 			return false
 		}
 		budget--
-		return hasKind(runScenario(c), kind)
+		return pred(c)
 	}
 	for len(sc.Versions) > 1 {
 		c := sc
@@ -809,6 +873,14 @@ func shrink(sc Scenario, kind string) Scenario {
 		}
 		sc = c
 	}
+	for i := 0; i < len(sc.Versions) && len(sc.Versions) > 1; i++ {
+		c := cloneScenario(sc)
+		c.Versions = append(c.Versions[:i], c.Versions[i+1:]...)
+		if try(c) {
+			sc = c
+			i--
+		}
+	}
 	for vi := range sc.Versions {
 		for bi := range sc.Versions[vi].Batches {
 			for i := 0; i < len(sc.Versions[vi].Batches[bi]); i++ {
@@ -823,6 +895,18 @@ func shrink(sc Scenario, kind string) Scenario {
 		}
 	}
 	return sc
+}
+
+func shrinkFinding(sc Scenario, key string) Scenario {
+	has := func(c Scenario) bool {
+		for _, f := range runScenario(c).findings {
+			if f.key == key {
+				return true
+			}
+		}
+		return false
+	}
+	return shrinkWith(sc, has)
 }
 
 func cloneScenario(sc Scenario) Scenario {
@@ -843,8 +927,8 @@ func main() {
 		os.Exit(2)
 	}
 	hdr := "From Verif Require Import Lib.Base WriteLog.Model.\n"
-	wb := coqout.NewWriter(*out, hdr, "run_case", "wobs_eqb", 40)
-	sum := coqout.NewSummary("scenarios = chains of 3-7 versions over two real storage backends (badger/pathbadger in all four combinations; state roots chained across versions, IO roots rebuilt from the empty root with 1-2 hops per version); batches of 0-7 pattern instances (insert, overwrite same/other value, remove present/absent, remove-then-reinsert, insert-then-remove, empty value, repeated remove) over 16 keys with shared prefixes and 5 values incl. empty and 70 bytes; every pair of consecutive roots is one evaluation with 4-11 Apply attempts (corrupted logs first, the served log last); non-trivial = served log has >= 2 entries; distinct = distinct (start contents, batch) among those")
+	wb := coqout.NewWriter(*out, hdr, "run_case", "wobs_eqb", 10)
+	sum := coqout.NewSummary("scenarios = chains of 3-7 versions over two real storage backends (badger/pathbadger in all four combinations; state roots chained across versions, IO roots rebuilt from the empty root with 1-2 hops per version); batches of 0-7 pattern instances (insert, overwrite same/other value, remove present/absent, remove-then-reinsert, insert-then-remove, empty value, repeated remove) over 16 keys with shared prefixes and 5 values incl. empty and 40 bytes; every pair of consecutive roots is one evaluation with 4-11 Apply attempts (corrupted logs first, the served log last); non-trivial = served log has >= 2 entries; distinct = distinct (start contents, batch) among those")
 	var scs []Scenario
 	if *replay != "" {
 		b, err := os.ReadFile(*replay)
@@ -873,6 +957,7 @@ func main() {
 		}
 	}
 	seen := map[string]bool{}
+	shrunk := 0 // every shrink re-runs the scenario on fresh databases: only the first few are minimised
 	for _, sc := range scs {
 		res := runScenario(sc)
 		sum.Count("scenario", sc.Backend+"->"+sc.Backend2+":"+sc.Type)
@@ -891,10 +976,23 @@ func main() {
 			}
 		}
 		sum.Sample(sc, 2)
+		for _, f := range res.findings {
+			small := sc
+			if shrunk < 3 {
+				shrunk++
+				small = shrinkFinding(sc, f.key)
+			}
+			sum.Findings = append(sum.Findings, coqout.Finding{Key: f.key, What: f.what, Replay: map[string]any{"case": small}})
+			break
+		}
 		if len(res.violations) > 0 {
 			kind := violKind(res.violations[0])
 			small := sc
-			if !res.panicked {
+			if len(sum.Violations) >= 20 {
+				continue
+			}
+			if !res.panicked && shrunk < 3 {
+				shrunk++
 				small = shrink(sc, kind)
 			}
 			what := res.violations[0]
